@@ -231,6 +231,60 @@ def h_wrappers(kind):
     return h
 
 
+def h_cansee_operator(target_kind):
+    """`X can see Y`: the occluders handed to X.canSee are exactly the occluding objects other than X and Y,
+    whatever kind of target Y is (bare vector, Point, Object)."""
+
+    def h(ctx):
+        import scenic.syntax.veneer as V
+        from scenic.core.object_types import Object, Point
+        from scenic.core.vectors import Vector
+
+        calls = []
+
+        class Viewer(Point):
+            def canSee(self, other, occludingObjects=tuple(), debug=False):
+                calls.append((other, tuple(occludingObjects)))
+                return True
+
+        X = Viewer._with(position=Vector(0, 0, 0))
+
+        class Obj:
+            def __init__(self, name):
+                self.name = name
+                self.occluding = ctx.flag(name + ".occluding")
+
+        objs = [Obj("o1"), Obj("o2"), Obj("o3")]
+        if target_kind == "vector":
+            Y = Vector(3, 4, 0)
+        elif target_kind == "tuple":
+            Y = (3, 4, 0)
+        else:
+            Y = Point._with(position=Vector(3, 4, 0))
+        listed = list(objs)
+        if target_kind == "listed-point":
+            listed.append(Y)  # the target itself is among the scenario's objects
+
+        class Scn:
+            _objects = listed
+
+        saved = V.currentScenario
+        V.currentScenario = Scn()
+        try:
+            r = V.CanSee(X, Y)
+        finally:
+            V.currentScenario = saved
+        ctx.check("operator-evaluates-the-viewer's-canSee-once", len(calls) == 1 and r is True, calls=len(calls))
+        if len(calls) == 1:
+            want = tuple(o for o in listed if getattr(o, "occluding", False) and o is not X and o is not Y)
+            got = calls[0][1]
+            ctx.check("occluders-are-exactly-the-occluding-objects-other-than-viewer-and-target",
+                      len(got) == len(want) and all(a is b for a, b in zip(got, want)),
+                      got=[getattr(o, "name", "?") for o in got], want=[getattr(o, "name", "?") for o in want])
+
+    return h
+
+
 def sys_replay_frame(cex):
     """Public-API confirmation: a viewer away from the origin, turned 90 degrees, looking at a point straight ahead."""
     import scenic
@@ -264,6 +318,11 @@ def obligations(tier, seed):
         Obligation("occlusion-monotone", h_occlusion, "occluders only remove visibility; pre-filter sound",
                    {"occluders": 2, "hits": "1+1 symbolic hit points", "viewer/target": "concrete, 5 apart", "visibleDistance": "symbolic"}, [V.canSee], mm + ["trimesh ray query: symbolic hit lists"], opts=o),
     ]
+    import scenic.syntax.veneer as VV
+
+    for tk in ("vector", "tuple", "point"):
+        obs.append(Obligation(f"can-see-operator[{tk}-target]", h_cansee_operator(tk), "`X can see Y` passes the right occluders",
+                              {"objects": 3, "occluding flags": "symbolic"}, [VV.CanSee], []))
     for kind in ("Point", "OrientedPoint", "Object"):
         obs.append(Obligation(f"viewer-wrapper[{kind}]", h_wrappers(kind), f"{kind}.canSee arguments",
                               {}, [getattr(OT, kind).canSee], mm, opts=o))
